@@ -206,6 +206,36 @@ SIM_SCENARIO(scen_c18, "c18", "C18", 3000000, 20000) {
         SIM_CHECK(q != nullptr, "oracle:recovery", "scalable_malloc(%zu) still fails after memory became available again", sz);
         heap.on_alloc(q, sz, 0, false, "recovery scalable_malloc"); heap.before_free(q, "recovery free"); scalable_free(q);
     }
+    // pool_reset after the threads that used the pool have exited (their partly used slabs were orphaned inside the pool),
+    // then the same size classes again, by the main thread and by a new thread: blocks inside the pool's regions, no overlap
+    for (auto& pc : pools) {
+        if (!pc.pool || pc.fixed || sim::draw(2, "reset_after_exit") == 0) continue;
+        // what the exited threads used: remember a few of their sizes before everything is released
+        std::vector<size_t> sizes;
+        for (void* q : pc.blocks) { sizes.push_back(heap.size_of(q)); if (sizes.size() >= 6) break; }
+        for (size_t x : {(size_t)16, (size_t)64, (size_t)200, (size_t)1000, (size_t)3000, (size_t)8000}) sizes.push_back(x);
+        for (void* q : pc.blocks) heap.before_free(q, "pool_reset");
+        pc.blocks.clear();
+        bool ok = rml::pool_reset(pc.pool);
+        SIM_CHECK(ok, "oracle:alloc-result", "pool_reset reported failure");
+        auto again = [&](const char* who) {
+            for (size_t k = 0; k < sizes.size() * 2; ++k) {
+                size_t sz = sizes[k % sizes.size()] % 70000; pc.refusals = 0;
+                void* q = rml::pool_malloc(pc.pool, sz);
+                if (!q) continue;
+                check_inside(pc, q, sz, who);
+                SIM_CHECK(rml::pool_identify(q) == pc.pool, "oracle:pool-identify", "pool_identify(%p) does not name pool %d (after pool_reset)", q, pc.id);
+                heap.on_alloc(q, sz, 0, false, who, pc.pool);
+                pc.blocks.push_back(q);
+                sim::upoint();
+            }
+            heap.check_all("after pool_reset and new allocations");
+        };
+        again("pool_malloc after pool_reset (main thread)");
+        int late = sim::spawn([&] { again("pool_malloc after pool_reset (new thread)"); }, "late");
+        sim::join(late);
+        sim::probe("pool-reset-after-thread-exit");
+    }
     if (nulls) sim::probe("request-failed-cleanly");
     for (auto& v : mine) for (void* q : v) { heap.before_free(q, "final free"); scalable_free(q); }
     for (auto& pc : pools) {
